@@ -7,15 +7,17 @@
    Retry convergence is proved for get and traverse (C07_retry_get / C07_retry_traverse) and,
    for non-pruning tries, for set / delete (C07_retry_set / C07_retry_delete, Hexary/
    D_retry_write.v: two runs in lockstep over a sub-store and the complete store).
-   For PRUNING tries the lockstep argument yields a third outcome (the C07_write_outcomes theorems): the
-   model's _complete_pruning turns the KeyError of `del db[k]` into ValidationError, and over
-   an ARBITRARY pair of stores that deletion can fail on the sub-store only
-   (D_retry_write.PruneCounterexample, a store that is not content-addressed).  On stores
-   produced by the trie itself every pruned key was read on the way down, so the outcome does
-   not arise; that exclusion is not proved and rests on the correspondence runs with prune=True. *)
-From Coq Require Import List NArith Bool.
+   For PRUNING tries the lockstep argument over an ARBITRARY pair of stores yields a third
+   outcome (the C07_write_outcomes theorems): the model's _complete_pruning turns the KeyError
+   of `del db[k]` into ValidationError, which can happen on a store that is not content-
+   addressed (D_retry_write.PruneCounterexample).  On the stores a pruning trie really has
+   (exact: Refine_write_prune.pinv) that outcome is impossible and the retry loop converges
+   (Hexary/D_retry_prune.v: every pending prune key was read or written by the same call) —
+   C07_prune_history: after ANY history of writes from the empty pruning trie, for EVERY
+   sub-store of its database. *)
+From Coq Require Import List NArith ZArith Bool.
 From PyTrie.Base Require Import Bytes Result AMap Nibbles Rlp Keccak.
-From PyTrie.Hexary Require Import Raw D D_safety D_read D_retry D_retry_write.
+From PyTrie.Hexary Require Import Raw Tree D D_safety D_read D_retry D_retry_write Refine_read Refine_write Refine_write_prune D_retry_prune.
 Import ListNotations.
 
 (* same result as on the complete database, or a Missing* error naming a hash that is absent
@@ -188,6 +190,29 @@ Theorem C07_retry_delete : forall BNH full m r k, sub_store m full ->
      forall x, aget mf x = if existsb (bytes_eqb x) asked then aget full x else aget m x).
 Proof. exact D_retry_write.C07_retry_delete. Qed.
 Print Assumptions C07_retry_delete.
+
+(* pruning tries: after any history [ws] of writes from the empty pruning trie (exact store m2,
+   counts rc), for EVERY sub-store m1 of m2 and any further write w: the write over m1 either
+   succeeds exactly as over m2 (same counts, same root, stores still nested) or is the atomic
+   MissingTrieNode report for a node absent from m1 and present in m2 — never ValidationError —
+   and the retry loop ends with the complete-store result, each node asked once
+   ([after_history], Hexary/D_retry_prune.v) *)
+Theorem C07_prune_history : forall (ws : list wop) (w : wop),
+  cf keccak256 (hist_bodies keccak256 (ws ++ [w])) ->
+  Forall (fun b => (blen b < 2 ^ 64)%N) (hist_bodies keccak256 (ws ++ [w])) ->
+  exists m2 rc,
+    wrun keccak256 BN ws (empty_trie BN true) =
+      (map (fun _ => Ok tt) ws, pstate keccak256 m2 rc (trun (map top_of ws))) /\
+    (forall h, amem m2 h = true <-> Z.lt 0%Z (occR keccak256 (trun (map top_of ws)) h)) /\
+    after_history keccak256 BN ws w m2 rc.
+Proof. exact D_retry_prune.C07_prune_history_keccak. Qed.
+Print Assumptions C07_prune_history.
+
+(* non-vacuity for pruning tries (keccak256): two nodes missing on the key's path; a leaf with
+   reference count 2 pruned twice by one delete *)
+Print Assumptions PruneRetryExample.ex_retry_set.
+Print Assumptions PruneRetryExample.ex_retry_delete.
+Print Assumptions PruneDuplicateExample.ex_duplicate.
 
 (* non-vacuity (keccak256; a store missing the root and its child on the key's path) *)
 Print Assumptions RetryWriteExample.ex_retry_set.
